@@ -39,7 +39,7 @@ ASSUMPTIONS = ["values are compared numerically after JSON parsing (a lookup can
                "clause (iii) uses the closed-form template reference with relative tolerance 1e-9",
                "stream-steps comes last in a partition (it runs to the stop time)"]
 FAULT_KINDS = []
-PROBES = ["earlier_session_not_ended", "decimal_dt", "fractional_start", "mixed_partition", "per_step_settings", "equation_subset_without_dependencies", "two_scenarios_different_runspecs",
+PROBES = ["two_managers_different_runspecs", "earlier_session_not_ended", "decimal_dt", "fractional_start", "mixed_partition", "per_step_settings", "equation_subset_without_dependencies", "two_scenarios_different_runspecs",
           "stream_in_partition", "points_step_setting", "runspecs_in_session_settings", "flat_results_requested", "two_scenarios_in_one_session", "scenario_level_constants"]
 EXHAUSTIVE = {"quick": False, "thorough": False}
 
@@ -247,6 +247,9 @@ def batch_channels(case, res, log):
     if case.get("second"):
         s2 = case["second"]
         wcfg["managers"][0]["scenarios"]["other"] = {"runspecs": {"starttime": s2["start"], "stoptime": s2["stop"], "dt": s2["dt"]}}
+        # ... and a second MANAGER (its own model object) on that other grid, for the frame over two managers
+        wcfg["bases"].append({"template": cfg["template"], "start": s2["start"], "stop": s2["stop"], "dt": s2["dt"]})
+        wcfg["managers"].append({"name": "smOther", "base": 1, "scenarios": {"elsewhere": {}}})
     w = ScenarioWorld(wcfg, log, res)
     b = w.setup()
     df = b.run_scenarios(scenarios=[SCN], scenario_managers=[MGR], equations=list(eqs), series_names={}, return_format="df")
@@ -287,6 +290,22 @@ def batch_channels(case, res, log):
                         return want
                     ser[eq] = [(float(t), v) for t, v in df2[col].dropna().to_dict().items()]
                 if not check_series(res, "run_scenarios/df two scenarios (%s)" % sc, ser, g, want if sc == SCN else None, eqs):
+                    return want
+        # one frame over two managers whose scenarios live on different grids
+        for mgrs in ([MGR, "smOther"], ["smOther", MGR]):
+            df3 = b.run_scenarios(scenarios=[SCN, "elsewhere"], scenario_managers=list(mgrs), equations=list(eqs), series_names={}, return_format="df")
+            res.probe("two_managers_different_runspecs")
+            for mg, sc, g in ((MGR, SCN, grid), ("smOther", "elsewhere", g2)):
+                ser = {}
+                for eq in eqs:
+                    col = "%s_%s_%s" % (mg, sc, eq)
+                    if df3 is None or col not in df3.columns:
+                        res.violate("C09.i-equation-missing", {"channel": "run_scenarios/df two managers", "column": col,
+                                                               "columns": list(df3.columns)[:6] if df3 is not None else None})
+                        return want
+                    ser[eq] = [(float(t), v) for t, v in df3[col].dropna().to_dict().items()]
+                if not check_series(res, "run_scenarios/df two managers (%s/%s, managers listed as %s)" % (mg, sc, "+".join(mgrs)), ser, g,
+                                    want if sc == SCN else None, eqs):
                     return want
     try:
         b.destroy()
